@@ -537,6 +537,15 @@ class Interp:
     def stmt_For(self, s, fr):
         ordinal = fr.loop_ids.get(id(s), -1)
         spec = self.loop_specs.get((fr.qual, ordinal))
+        if spec is None and self.segment_mode:
+            key = '__iter_%d' % ordinal
+            if key not in fr.locals:
+                it0 = self.eval(s.iter, fr)
+                if self.concrete_items(it0) is None:
+                    t0, k0 = self.seq_term(it0)
+                    fr.locals[key] = VSeq(t0, k0)
+            if key in fr.locals:
+                return self.segment_for(s, fr, key)
         it = self.eval(s.iter, fr)
         if spec is None:
             # only concrete iteration is allowed without an invariant
@@ -580,6 +589,31 @@ class Interp:
         if spec is None:
             raise Unsupported('while loop %s#%d needs an invariant' % (fr.qual, ordinal))
         return spec.run_while(self, s, fr)
+
+    def segment_for(self, s, fr, key):
+        """for-loop inside a coroutine segment over a symbolic sequence: iterate by taking the head of what remains
+        (kept in the frame under `key`) until the segment ends at a yield"""
+        n = 0
+        try:
+            while True:
+                rem = fr.locals[key]
+                if not self.branch(z3.Length(rem.t) > 0):
+                    self.exec_block(s.orelse, fr)
+                    return
+                n += 1
+                if n > 3:
+                    raise Unsupported('for loop in a segment does not reach a yield within 3 iterations')
+                h = z3.Const(sym.fresh_name('it_hd'), rem.kind.sort)
+                tl = z3.Const(sym.fresh_name('it_tl'), rem.t.sort())
+                self.st.assume(rem.t == z3.Concat(z3.Unit(h), tl))
+                fr.locals[key] = VSeq(tl, rem.kind)
+                self.assign(s.target, rem.kind.wrap(h), fr)
+                try:
+                    self.exec_block(s.body, fr)
+                except ContinueSignal:
+                    continue
+        except BreakSignal:
+            return
 
     def concrete_items(self, it):
         if isinstance(it, VTuple):
@@ -2097,10 +2131,17 @@ def _segment_methods():
                     self.exec_block(s.finalbody, fr)
             return
         if isinstance(s, ast.For):
-            h = self.spec_funcs.get('resume_for')
-            if h is None:
-                raise Unsupported('resuming inside a for loop')
-            return h(self, s, fr, target, resume)
+            key = '__iter_%d' % fr.loop_ids.get(id(s), -1)
+            if key not in fr.locals:
+                raise Unsupported('resuming inside a for loop needs the remaining items (%s) among the locals' % key)
+            try:
+                try:
+                    self.resume_block(s.body, fr, target, resume)
+                except ContinueSignal:
+                    pass
+            except BreakSignal:
+                return
+            return self.segment_for(s, fr, key)
         raise Unsupported('resume inside %s' % type(s).__name__)
 
     Interp.run_segment = run_segment
